@@ -1275,8 +1275,14 @@ def _allowed_punct_cond(nm, f, ce, pol, d):
                 (fa[1].endswith('.parent') or fa[3].endswith('.parent')):
             return True, 'the token is not yet a child of the root'
     if nm == 'punctuation_verylow':
-        if fa[0] == 'cmp' and fa[2] == '<' and fa[1] == '0' and isinstance(ast.parse(fa[3], mode='eval').body, ast.Name):
-            return True, 'the token is not the first token'
+        if fa[0] == 'cmp' and fa[2] in ('<', '<=') and fa[1].lstrip('-').isdigit() \
+                and isinstance(ast.parse(fa[3], mode='eval').body, ast.Name) and _is_enum_index(f, fa[3]):
+            low = int(fa[1]) + (1 if fa[2] == '<' else 0)        # the index is >= low
+            if low == 1:
+                return True, 'the token is not the first token'
+            if low > 1:
+                return False, 'the position must be at least %d: the tokens at positions 1..%d are never lowered' % (low, low - 1)
+            return False, 'the first token passes the filter: its "left neighbour" is the last token of the sentence'
         if fa[0] == 'opaque' and fa[2] is False and isinstance(ce, ast.Call) and \
                 _all_punct_over(ce, [path(d.p)] if path(d.p) else []):
             return True, 'the parent does not consist of punctuation only'
@@ -1289,6 +1295,16 @@ def _allowed_punct_cond(nm, f, ce, pol, d):
             return True, 'the target differs from the present parent'
     return None, 'condition `%s%s` is not one of the documented ones in a form this rule recognises' \
         % ('' if pol else 'not ', txt)
+
+
+def _is_enum_index(f, name):
+    """Is `name` bound as the index of an enumerate(...) without start (positions from 0)?"""
+    for n in ast.walk(f.node):
+        if isinstance(n, (ast.For, ast.comprehension)) and isinstance(n.iter, ast.Call) and unparse(n.iter.func) == 'enumerate' \
+                and len(n.iter.args) == 1 and not n.iter.keywords and isinstance(n.target, ast.Tuple) and n.target.elts \
+                and unparse(n.target.elts[0]) == name:
+            return True
+    return False
 
 
 def _parent_forms(fa):
